@@ -136,6 +136,7 @@ def run(prog: Program, roots=None, prop="C08") -> Results:
     if prop == "C08":
         refusal_guards(prog, res)
         fallback_handlers(prog, res, closure, eng=eng, bykey=bykey)
+        recursion_carries_visited(prog, res)
         from sa.rules.c05 import callee_head_acceptance
         callee_head_acceptance(prog, res, "R-C08-5", res.rules["R-C08-5"])
         # (d) a path running through an inherited (non-set) name is refused, not papered over (shared with R-C05-10)
@@ -424,3 +425,44 @@ def refusal_guards(prog: Program, res: Results) -> None:
                 res.add("R-C08-5", (h.key, "segment constructed without the empty-segment refusal"), h.loc(c),
                         f"{h.key}: `{norm(c)[:60]}` can be reached with an unquoted empty name ({where}): a path such as `a.` (trailing "
                         f"dot) is accepted and `set` writes a `\"\" = …;` binding instead of raising ValueError")
+
+
+def recursion_carries_visited(prog: Program, res: Results) -> None:
+    """R-C08-9: a cyclic document is refused with ValueError, not by exhausting the stack: the target resolver marks what it
+    has visited, and every call by which it re-enters itself hands that set on."""
+    from sa.util import callee
+    r = res.rule("R-C08-9", "the edit-target resolver's cycle guard survives re-entry: every recursive call of "
+                 "_resolve_target_set_from_expr (from its body or its closures) passes the local visited set as `_visited` — a call "
+                 "without it starts a fresh set, and `let x = with { }; x; in x` ends in RecursionError instead of ValueError", floor=2)
+    f = prog.funcs.get("_resolve_target_set_from_expr")
+    if f is None:
+        res.unclass("_resolve_target_set_from_expr vanished")
+        return
+    vp = next((p_ for p_ in f.params() if "visited" in p_), None)
+    local = next((norm(d.targets[0]) for d in walk_no_nested(f.node) if isinstance(d, ast.Assign) and isinstance(d.targets[0], ast.Name)
+                  and vp and any(isinstance(x, ast.Name) and x.id == vp for x in ast.walk(d.value))), None)
+    if not vp or not local:
+        res.unclass("_resolve_target_set_from_expr: the visited-set parameter / local was not recognised")
+        return
+    res.analysed_functions.add(f.key)
+    for g in [f] + list(f.nested.values()):
+        for c in walk_no_nested(g.node):
+            if not (isinstance(c, ast.Call) and (callee(c) == f.name)):
+                continue
+            r.instances += 1
+            kw = next((k.value for k in c.keywords if k.arg == vp), None)
+            ok = kw is not None and norm(kw) == local
+            r.ob(ok, {"site": g.key, "call": norm(c)[:70]})
+            if not ok:
+                res.add("R-C08-9", (g.key, "re-entry without the visited set"), g.loc(c),
+                        f"{g.key}: `{norm(c)[:70]}` re-enters the resolver without `{vp}={local}`: the cycle guard starts afresh on every pass, "
+                        f"so a cyclic document is not refused with ValueError but recurses until RecursionError")
+    # functools.partial(f, _visited=visited) binds it once for every call through the partial
+    for c in walk_no_nested(f.node):
+        if isinstance(c, ast.Call) and callee(c) == "partial" and c.args and norm(c.args[0]) == f.name:
+            r.instances += 1
+            kw = next((k.value for k in c.keywords if k.arg == vp), None)
+            r.ob(kw is not None and norm(kw) == local, {"site": f.key, "partial": norm(c)[:70]})
+            if not (kw is not None and norm(kw) == local):
+                res.add("R-C08-9", (f.key, "re-entry without the visited set", "partial"), f.loc(c),
+                        f"{f.key}: `{norm(c)[:70]}` re-enters the resolver without `{vp}={local}`")
